@@ -80,7 +80,7 @@ pub async fn run_one(seed: u64, recover_mode: bool) -> Vec<Value> {
         Err(e) => return vec![json!({"kind": "harness_error", "e": e})],
     };
     w.net.inner.log_redis.store(true, std::sync::atomic::Ordering::SeqCst);
-    let mut rig = Rig { w, keys: keys_for_all_slots(), out: vec![], uniq: 0, rng: StdRng::seed_from_u64(seed ^ 77), all_slots: false };
+    let mut rig = Rig { w, keys: keys_for_all_slots(), out: vec![], uniq: 0, rng: StdRng::seed_from_u64(seed ^ 77), all_slots: false, check_free: true };
     rig.emit(json!({"kind": "reset", "seed": seed, "mode": if recover_mode { "recover" } else { "ctl" }, "compress": compress, "limit": limit}));
     for h in 1..=3u32 {
         for i in 0..2u32 {
@@ -187,7 +187,15 @@ pub async fn run_one(seed: u64, recover_mode: bool) -> Vec<Value> {
         // any snapshot taken after the cluster existed (index 8 = after AddCluster)
         let n = rig.w.broker.snapshots.len();
         // snapshots[i] = store after the (i+1)-th op; the cluster exists from op 7 (6 registrations + create)
-        let at = if n > 9 { rng.gen_range(7..n) } else { n.saturating_sub(1) };
+        // ... or, one time in three, a snapshot from BEFORE the cluster existed (registrations only) or the empty store
+        let early = rng.gen_range(0..3) == 0;
+        let at = if early {
+            if rng.gen_bool(0.3) { usize::MAX } else { rng.gen_range(0..6.min(n.max(1))) }
+        } else if n > 9 {
+            rng.gen_range(7..n)
+        } else {
+            n.saturating_sub(1)
+        };
         rig.op(Op::RestartFrom { at }).await;
         let ms = members(&rig).await;
         let mut proxy_epochs = vec![];
@@ -209,9 +217,20 @@ pub async fn run_one(seed: u64, recover_mode: bool) -> Vec<Value> {
             maxe
         };
         rig.op(Op::RecoverEpoch { max_proxy_epoch: seen_max.max(0) as u64 }).await;
+        let gepoch_after_recovery = rig.w.broker.observe().await.0["gepoch"].clone();
+        if members(&rig).await.is_empty() {
+            // the recovered store has no cluster: the administrator registers the proxies and creates it again
+            for h in 1..=3u32 {
+                for i in 0..2u32 {
+                    rig.op(Op::AddProxy { host: h, idx: i, explicit_host: true, index: None }).await;
+                }
+            }
+            rig.op(Op::AddCluster { name: "c1".into(), n: 4 }).await;
+            rig.op(Op::ChangeConfig { name: "c1".into(), key: "migration_max_blocking_time".into(), value: "2000000000".into() }).await;
+        }
         let (s, obs) = rig.w.broker.observe().await;
         let served: Vec<Value> = obs["svc"]["proxies"].as_array().cloned().unwrap_or_default().iter().map(|p| json!({"proxy": p["addr"], "epoch": p["epoch"]})).collect();
-        rig.emit(json!({"kind": "recover", "proxy_epochs": proxy_epochs, "served": served, "gepoch": s["gepoch"], "all_seen": !hidden}));
+        rig.emit(json!({"kind": "recover", "proxy_epochs": proxy_epochs, "served": served, "gepoch": s["gepoch"], "gepoch_rec": gepoch_after_recovery, "all_seen": !hidden}));
     }
     // faults stop
     rig.w.net.inner.call_faults.lock().clear();
